@@ -57,6 +57,113 @@ READ_ONLY_FUNCS = [
 ]
 
 
+def memo_rules(index: RepoIndex, rep, rule: str, eff, only_rel=None) -> None:
+    """memoised helpers are lru_cache-based, pure, deterministic, and their results are only
+    read by the callers (no store, mutator call, in-place update or hand-out)"""
+    cached: List[Tuple[str, Func, str]] = []   # (public name, function, module relpath)
+    for mod in index.modules.values():
+        if not mod.relpath.startswith(PKG):
+            continue
+        for fn in mod.functions.values():
+            if any('lru_cache' in src(d) or src(d).endswith('cache') for d in fn.node.decorator_list):
+                cached.append((fn.name, fn, mod.relpath))
+        for name, vals in mod.assigns.items():
+            for v in vals:
+                if isinstance(v, ast.Call) and isinstance(v.func, ast.Call) and \
+                        'lru_cache' in src(v.func.func) and len(v.args) == 1 and \
+                        isinstance(v.args[0], ast.Name) and v.args[0].id in mod.functions:
+                    cached.append((name, mod.functions[v.args[0].id], mod.relpath))
+    component_cached = [c for c in cached if not c[2].endswith('schemas.py')
+                        and (only_rel is None or c[2] == only_rel)]
+    # the three memoised helpers of the pinned tree must still be lru_cache-based (keyed by
+    # their full input); any other memoisation scheme is not analysable as history-free
+    for rel, name in (('gym_gridverse/utils/raytracing.py', 'cached_compute_rays'),
+                      ('gym_gridverse/utils/raytracing.py', 'cached_compute_rays_fancy'),
+                      ('gym_gridverse/envs/reward_functions.py', 'dijkstra')):
+        if only_rel is not None and rel != only_rel:
+            continue
+        mod_ = index.module(rel)
+        present = name in mod_.functions or name in mod_.assigns
+        if not present:
+            raise AnalysisError(f'anchor vanished: memoised helper {rel}:{name}')
+        rep.check(any(c[0] == name and c[2] == rel for c in component_cached), rule, rel,
+                  name, (mod_.functions[name].node.lineno if name in mod_.functions
+                         else getattr(mod_.assigns[name][0], 'lineno', 1)), name,
+                  f'{name} is no longer memoised by functools.lru_cache on its full argument '
+                  f'tuple: a hand-written cache may key on less than the input (later answers '
+                  f'would depend on earlier calls)', f'{name} lru_cache-based')
+    for name, fn, rel in component_cached:
+        s = eff.summary(fn)
+        rep.check(not s.mut_params and not (s.global_writes - {'_gv_debug'}), rule, rel,
+                  fn.short, fn.node.lineno, name,
+                  f'memoised {name} mutates {sorted(s.mut_params)} / writes '
+                  f'{sorted(s.global_writes)}: later answers depend on earlier calls',
+                  f'{name} pure')
+        draws = [e for e in eff.walks[eff.qual(fn)].events if e.kind == 'call'
+                 and isinstance(e.node.func, ast.Attribute) and 'rng' in src(e.node.func.value)]
+        rep.check(not draws, rule, rel, fn.short, fn.node.lineno, name,
+                  f'memoised {name} draws random numbers', f'{name} deterministic')
+        # global reads of mutable module state
+        reads = set()
+        w_ = eff.walks[eff.qual(fn)]
+        for n in ast.walk(fn.node):
+            if isinstance(n, ast.Name) and isinstance(n.ctx, ast.Load) and \
+                    n.id in fn.module.assigns and n.id not in w_.params and n.id not in w_.defs:
+                vals = fn.module.assigns[n.id]
+                if any(isinstance(v, (ast.List, ast.Dict, ast.Set)) for v in vals):
+                    reads.add(n.id)
+        rep.check(not reads, rule, rel, fn.short, fn.node.lineno, ', '.join(sorted(reads)),
+                  f'memoised {name} reads mutable module state {sorted(reads)}',
+                  f'{name} reads no mutable global')
+        # call sites: the cached result is only read
+        for q, g in eff.funcs.items():
+            wq = eff.walks[q]
+            for e in wq.events:
+                if e.kind != 'call' or src(e.node.func) != name:
+                    continue
+                bound = [n_ for n_, ds in wq.defs.items() for d in ds
+                         if d[0] == 'value' and d[1] is e.node]
+                bad_uses = []
+                ann = src(fn.node.returns) if fn.node.returns is not None else ''
+                immutable = ann in ('int', 'float', 'bool', 'str') or ann.startswith('Tuple[') \
+                    or ann.startswith('tuple[')
+                for bn in bound:
+                    if not immutable:
+                        for d_ in wq.defs.get(bn, []):
+                            if d_[0] == 'aug':
+                                # `x -= c` on an array / list updates the cached object itself
+                                bad_uses.append(src(d_[1]) + '  (in-place update)')
+                    for x in wq.events:
+                        root = None
+                        if x.kind in ('store', 'augstore', 'attrstore', 'delete'):
+                            t = x.target
+                            while isinstance(t, (ast.Subscript, ast.Attribute)):
+                                t = t.value
+                            root = t.id if isinstance(t, ast.Name) else None
+                            if root == bn:
+                                bad_uses.append(src(x.stmt))
+                        if x.kind == 'call' and isinstance(x.node.func, ast.Attribute):
+                            t = x.node.func.value
+                            while isinstance(t, (ast.Subscript, ast.Attribute)):
+                                t = t.value
+                            from ..guards import MUTATORS
+                            if isinstance(t, ast.Name) and t.id == bn and \
+                                    x.node.func.attr in MUTATORS:
+                                bad_uses.append(src(x.node))
+                        if x.kind == 'return' and x.value is not None and \
+                                isinstance(x.value, ast.Name) and x.value.id == bn:
+                            # returning the cached object hands out shared storage
+                            if not any(g is v for r in index.registries.values()
+                                       for v in r.values()) or True:
+                                bad_uses.append(src(x.stmt) + '  (returns the cached object)')
+                    # elements bound by iteration over the cached result
+                rep.check(not bad_uses, rule, g.relpath, g.short, e.line, src(e.node)[:80],
+                          f'the memoised result of {name} is modified or handed out: '
+                          f'{bad_uses[:2]} -- later calls would see the change',
+                          f'{g.short}: result of {name} only read')
+
+
+
 def run(index: RepoIndex, rep) -> None:
     rep.rule('C03.R1', 'copy before mutate: the transition runs on fast_copy(state) (a deep '
              'copy) and that copy is returned; functional_step only uses transition_with_copy',
@@ -201,96 +308,7 @@ def run(index: RepoIndex, rep) -> None:
               'from_visibility stores into the state', 'state only referenced')
 
     # ---------------------------------------------------------------- R4
-    cached: List[Tuple[str, Func, str]] = []   # (public name, function, module relpath)
-    for mod in index.modules.values():
-        if not mod.relpath.startswith(PKG):
-            continue
-        for fn in mod.functions.values():
-            if any('lru_cache' in src(d) or src(d).endswith('cache') for d in fn.node.decorator_list):
-                cached.append((fn.name, fn, mod.relpath))
-        for name, vals in mod.assigns.items():
-            for v in vals:
-                if isinstance(v, ast.Call) and isinstance(v.func, ast.Call) and \
-                        'lru_cache' in src(v.func.func) and len(v.args) == 1 and \
-                        isinstance(v.args[0], ast.Name) and v.args[0].id in mod.functions:
-                    cached.append((name, mod.functions[v.args[0].id], mod.relpath))
-    component_cached = [c for c in cached if not c[2].endswith('schemas.py')]
-    # the three memoised helpers of the pinned tree must still be lru_cache-based (keyed by
-    # their full input); any other memoisation scheme is not analysable as history-free
-    for rel, name in (('gym_gridverse/utils/raytracing.py', 'cached_compute_rays'),
-                      ('gym_gridverse/utils/raytracing.py', 'cached_compute_rays_fancy'),
-                      ('gym_gridverse/envs/reward_functions.py', 'dijkstra')):
-        mod_ = index.module(rel)
-        present = name in mod_.functions or name in mod_.assigns
-        if not present:
-            raise AnalysisError(f'anchor vanished: memoised helper {rel}:{name}')
-        rep.check(any(c[0] == name and c[2] == rel for c in component_cached), 'C03.R4', rel,
-                  name, (mod_.functions[name].node.lineno if name in mod_.functions
-                         else getattr(mod_.assigns[name][0], 'lineno', 1)), name,
-                  f'{name} is no longer memoised by functools.lru_cache on its full argument '
-                  f'tuple: a hand-written cache may key on less than the input (later answers '
-                  f'would depend on earlier calls)', f'{name} lru_cache-based')
-    for name, fn, rel in component_cached:
-        s = eff.summary(fn)
-        rep.check(not s.mut_params and not (s.global_writes - {'_gv_debug'}), 'C03.R4', rel,
-                  fn.short, fn.node.lineno, name,
-                  f'memoised {name} mutates {sorted(s.mut_params)} / writes '
-                  f'{sorted(s.global_writes)}: later answers depend on earlier calls',
-                  f'{name} pure')
-        draws = [e for e in eff.walks[eff.qual(fn)].events if e.kind == 'call'
-                 and isinstance(e.node.func, ast.Attribute) and 'rng' in src(e.node.func.value)]
-        rep.check(not draws, 'C03.R4', rel, fn.short, fn.node.lineno, name,
-                  f'memoised {name} draws random numbers', f'{name} deterministic')
-        # global reads of mutable module state
-        reads = set()
-        w_ = eff.walks[eff.qual(fn)]
-        for n in ast.walk(fn.node):
-            if isinstance(n, ast.Name) and isinstance(n.ctx, ast.Load) and \
-                    n.id in fn.module.assigns and n.id not in w_.params and n.id not in w_.defs:
-                vals = fn.module.assigns[n.id]
-                if any(isinstance(v, (ast.List, ast.Dict, ast.Set)) for v in vals):
-                    reads.add(n.id)
-        rep.check(not reads, 'C03.R4', rel, fn.short, fn.node.lineno, ', '.join(sorted(reads)),
-                  f'memoised {name} reads mutable module state {sorted(reads)}',
-                  f'{name} reads no mutable global')
-        # call sites: the cached result is only read
-        for q, g in eff.funcs.items():
-            wq = eff.walks[q]
-            for e in wq.events:
-                if e.kind != 'call' or src(e.node.func) != name:
-                    continue
-                bound = [n_ for n_, ds in wq.defs.items() for d in ds
-                         if d[0] == 'value' and d[1] is e.node]
-                bad_uses = []
-                for bn in bound:
-                    for x in wq.events:
-                        root = None
-                        if x.kind in ('store', 'augstore', 'attrstore', 'delete'):
-                            t = x.target
-                            while isinstance(t, (ast.Subscript, ast.Attribute)):
-                                t = t.value
-                            root = t.id if isinstance(t, ast.Name) else None
-                            if root == bn:
-                                bad_uses.append(src(x.stmt))
-                        if x.kind == 'call' and isinstance(x.node.func, ast.Attribute):
-                            t = x.node.func.value
-                            while isinstance(t, (ast.Subscript, ast.Attribute)):
-                                t = t.value
-                            from ..guards import MUTATORS
-                            if isinstance(t, ast.Name) and t.id == bn and \
-                                    x.node.func.attr in MUTATORS:
-                                bad_uses.append(src(x.node))
-                        if x.kind == 'return' and x.value is not None and \
-                                isinstance(x.value, ast.Name) and x.value.id == bn:
-                            # returning the cached object hands out shared storage
-                            if not any(g is v for r in index.registries.values()
-                                       for v in r.values()) or True:
-                                bad_uses.append(src(x.stmt) + '  (returns the cached object)')
-                    # elements bound by iteration over the cached result
-                rep.check(not bad_uses, 'C03.R4', g.relpath, g.short, e.line, src(e.node)[:80],
-                          f'the memoised result of {name} is modified or handed out: '
-                          f'{bad_uses[:2]} -- later calls would see the change',
-                          f'{g.short}: result of {name} only read')
+    memo_rules(index, rep, 'C03.R4', eff)
 
     # ---------------------------------------------------------------- R6
     component_decorators(index, rep, 'C03.R6')
